@@ -32,6 +32,8 @@ func vc11Pool() (pool []string) {
 		)
 	}
 
+	zero, ones := vc11Magic()
+	pool = append(pool, zero, ones)
 	sort.Strings(pool)
 
 	return pool
@@ -121,8 +123,19 @@ func vc11GenPrefixQuery(t *rapid.T, pool []string) (q vc11PrefixQuery) {
 	n := rapid.SampledFrom([]int{1, 1, 1, 2, 2, 3, 4, 6}).Draw(t, "nPrefs")
 	for i := 0; i < n; i++ {
 		var l vc11PrefixLabel
-		if i > 0 && rapid.IntRange(0, 5).Draw(t, "repeat") == 0 {
+		if i > 0 && rapid.IntRange(0, 2).Draw(t, "repeat") == 0 {
+			// Request an earlier prefix again: verbatim, as the four
+			// characters, or as a legacy label with another tail.
 			l = q.labels[rapid.IntRange(0, i-1).Draw(t, "repeatOf")]
+			if l.pref != "" && !l.free {
+				switch rapid.IntRange(0, 2).Draw(t, "repeatForm") {
+				case 1:
+					l = vc11PrefixLabel{text: l.pref, kind: "pref-pool4", pref: l.pref}
+				case 2:
+					l = vc11PrefixLabel{text: l.pref + vc11HexStr(t, 4, "tail"), kind: "pref-legacy8-other-tail", pref: l.pref}
+				}
+			}
+
 			q.kinds = append(q.kinds, "pref-repeated")
 		} else {
 			l = vc11GenPrefixLabel(t, pool)
@@ -212,17 +225,19 @@ func vc11CompareHashes(got []string, want map[string]bool) (problem string) {
 
 func TestVerifC11Matcher(t *testing.T) {
 	st := vstat.New("C11", "hashprefix.matcher",
-		"rapid histories over two storages behind one Matcher (general and adult suffix): list versions over a 20-name pool "+
-			"with a prefix twin per suffix (comments, blanks, duplicates, CRLF), prefix queries of 1-6 labels (pool/legacy/"+
+		"rapid histories over two storages behind one Matcher (general and adult suffix): list versions over a 22-name pool "+
+			"with a prefix twin per suffix and names whose digests start with 0000 and ffff (comments, blanks, duplicates, CRLF), prefix queries of 1-6 labels (pool/legacy/"+
 			"random/repeated/malformed), hosts outside the suffixes, resets; after every reset Storage.Matches is compared "+
 			"with membership for the whole pool; non-trivial = a well-formed query whose expected answer is non-empty; "+
 			"distinct by (suffix, requested prefixes, expected hashes)",
 		"answer-two-names-one-prefix", "answer-legacy8", "answer-excludes-other-storage", "answer-empty",
 		"answer-after-reset-removed", "malformed-length", "malformed-nonhex4", "malformed-nonhex8-head", "malformed-empty-label",
-		"not-under-suffix", "matches-prefix-twin-not-listed", "text-crlf", "text-duplicate", "text-comment-only")
+		"not-under-suffix", "matches-prefix-twin-not-listed", "text-crlf", "text-duplicate", "text-comment-only",
+		"repeated-prefix-with-zero-hash-listed", "repeated-prefix-with-ones-hash-listed")
 	st.Finish(t)
 
 	pool := vc11Pool()
+	zero, ones := vc11Magic()
 	suffixes := []string{filter.GeneralTXTSuffix, filter.AdultBlockingTXTSuffix}
 	ctx := context.Background()
 
@@ -261,7 +276,7 @@ func TestVerifC11Matcher(t *testing.T) {
 		}
 
 		for i := range strgs {
-			lists[i] = vc11GenList(t, fmt.Sprintf("s%d.v0", i), pool)
+			lists[i] = vc11GenList(t, fmt.Sprintf("s%d.v0", i), pool, zero, ones)
 			history = append(history, fmt.Sprintf("storage %d (%s) new list=%q", i, suffixes[i], lists[i].text))
 			st.Class(lists[i].forms...)
 
@@ -296,7 +311,7 @@ func TestVerifC11Matcher(t *testing.T) {
 			case kind == 0:
 				i := rapid.IntRange(0, 1).Draw(t, "resetWhich")
 				prev[i] = lists[i].listed
-				lists[i] = vc11GenList(t, fmt.Sprintf("s%d.op%d", i, op), pool)
+				lists[i] = vc11GenList(t, fmt.Sprintf("s%d.op%d", i, op), pool, zero, ones)
 				history = append(history, fmt.Sprintf("storage %d (%s) reset list=%q", i, suffixes[i], lists[i].text))
 				st.Class(lists[i].forms...)
 
@@ -373,6 +388,19 @@ func TestVerifC11Matcher(t *testing.T) {
 								classes = append(classes, "answer-legacy8")
 							}
 						}
+					}
+				}
+
+				if len(q.labels) > len(q.prefs) {
+					// A prefix is requested more than once.  An entry of the
+					// decoded prefix list that is never filled in is 00 00
+					// (or, less likely, ff ff).
+					if lists[i].listed[zero] && !q.prefs["0000"] {
+						classes = append(classes, "repeated-prefix-with-zero-hash-listed")
+					}
+
+					if lists[i].listed[ones] && !q.prefs["ffff"] {
+						classes = append(classes, "repeated-prefix-with-ones-hash-listed")
 					}
 				}
 
